@@ -51,6 +51,14 @@ def check_frame(ctx, df, obj, names, span_list, flags, what, case):
     if len(df.index) != len(span_list) or not all(a == b for a, b in zip(df.index, span_list)):
         ctx.violation('export-index', f'{what}: index {list(df.index)[:6]} is not the span {span_list[:6]}', case)
         return False
+    import pandas as _pd
+    sp = obj.__dict__['span']
+    if isinstance(sp, _pd.Index):
+        # "indexed by the span": when the span is a pandas index, the table's index is that kind of index, with its name(s) and frequency
+        if type(df.index) is not type(sp) or list(df.index.names) != list(sp.names) or getattr(df.index, 'freq', None) != getattr(sp, 'freq', None):
+            ctx.violation('export-index', f'{what}: the span is a {type(sp).__name__} (names {list(sp.names)}, freq {getattr(sp, "freq", None)}); the table is indexed by a {type(df.index).__name__} '
+                                          f'(names {list(df.index.names)}, freq {getattr(df.index, "freq", None)})', case)
+            return False
     want_cols = list(names)
     if flags.get('status', True) and 'status' in obj.__dict__['index']:
         want_cols.append('status')
